@@ -2,4 +2,6 @@ from plasTeX import Environment
 
 class sideways(Environment):
     def invoke(self, tex):
+        # The environment leaves no node behind, but it is still a group
+        Environment.invoke(self, tex)
         return []
